@@ -92,6 +92,8 @@ class TimeEnv:
         self.path = path
         self.rows = rows
         self.reads = []  # SymInt instants in order
+        self.cache = {}
+        self.ups = {}  # read index -> SymBool 'fraction >= .5' (time.time() reads)
         self.clock_lo, self.clock_hi = clock_lo, clock_hi
         self.zi = None
         if rows is not None:
@@ -151,6 +153,9 @@ class TimeEnv:
         if isinstance(local, int):
             d, r = divmod(local, DAY)
             return d, r // 3600, (r % 3600) // 60, r % 60
+        key = ("decomp", local.t.get_id())
+        if key in self.cache:
+            return self.cache[key][1]
         p = self.path
         dv = p.fresh_bv(what + "_day", 18)
         hv = p.fresh_bv(what + "_h", 6)
@@ -165,11 +170,16 @@ class TimeEnv:
         tot = ((day * 24 + h) * 60 + m) * 60 + s
         e = i_eq(tot, local)
         p.constrain(e.t if isinstance(e, SymBool) else z3.BoolVal(bool(e)))
+        # definitional symbols: the decomposition of one term is shared by everyone who asks
+        self.cache[key] = (local.t, (day, h, m, s))
         return day, h, m, s
 
     def weekday_of_day(self, day):
         if isinstance(day, int):
             return (day + 3) % 7
+        key = ("wday", day.t.get_id())
+        if key in self.cache:
+            return self.cache[key][1]
         p = self.path
         wv = p.fresh_bv("wday", 4)
         qv = p.fresh_bv("wq", 16)
@@ -178,6 +188,7 @@ class TimeEnv:
         p.constrain(z3.And(wv >= 0, wv <= 6, qv >= 0))
         e = i_eq(q * 7 + w, day + 3)
         p.constrain(e.t if isinstance(e, SymBool) else z3.BoolVal(bool(e)))
+        self.cache[key] = (day.t, w)
         return w
 
 
@@ -319,6 +330,7 @@ class TimeModule:
         te = env()
         t = te.now()
         up = te.path.fresh_bool("clock_frac_ge_half")
+        te.ups[len(te.reads) - 1] = SymBool(up)
         return FL.FClock(t, SymBool(up))
 
     def time_ns(self):
